@@ -251,7 +251,11 @@ def finish(ctx, level, explanation, checker_cmd):
     for k, e in known_hits.items():
         print("KNOWN-FINDING: property=%s %s" % (prop, e["what"]))
 
-    n_obl = len(ctx.obligations)
+    # obligations refuted by a recorded finding are reported as such, never as
+    # discharged; they are not part of the proof claim (counted separately)
+    n_known = sum(1 for o in ctx.obligations if o.status == "refuted"
+                  and match_known(known, prop, o.k()) is not None)
+    n_obl = len(ctx.obligations) - n_known
     n_proved = sum(1 for o in ctx.obligations if o.status == "proved")
     wall = time.time() - ctx.t0
 
